@@ -855,3 +855,277 @@ Section RoundTrip.
     destruct (print_relations vprint (e :: es)) eqn:E; intros H Hne; [congruence|exact H].
   Qed.
 End RoundTrip.
+
+(* ================================================================== C. totality *)
+Definition fine {A} (r : res A) : Prop := is_value_or_error r = true.
+
+Lemma fine_bind {A B} (r : res A) (f : A -> res B) :
+  fine r -> (forall a, r = Ok a -> fine (f a)) -> fine (bind r f).
+Proof. destruct r; cbn; intros H Hf; try discriminate; [apply Hf; reflexivity|reflexivity]. Qed.
+
+Lemma fine_cases {A} (r : res A) : fine r -> (exists a, r = Ok a) \/ (exists e, r = Err e).
+Proof. destruct r; cbn; intros H; try discriminate; [left|right]; eexists; reflexivity. Qed.
+
+Lemma list_len_ind {A} (P : list A -> Prop) :
+  (forall l, (forall l', length l' < length l -> P l') -> P l) -> forall l, P l.
+Proof.
+  intros H l. remember (length l) as n eqn:E. revert l E.
+  induction n as [n IH] using lt_wf_ind. intros l ->. apply H. intros l' Hl. exact (IH _ Hl l' eq_refl).
+Qed.
+
+Section Total.
+  Variable V : Type.
+  Variable vparse : str -> option V.
+
+  Lemma read_version_string_fine ts : forall acc, fine (read_version_string ts acc).
+  Proof.
+    induction ts as [|[k s] r IH]; intros acc; [reflexivity|].
+    destruct k; try reflexivity; cbn [read_version_string]; apply IH.
+  Qed.
+
+  Lemma read_version_fine ts : fine (read_version vparse ts).
+  Proof.
+    unfold read_version. destruct ts as [|[k s] r]; [reflexivity|]. destruct k; try reflexivity.
+    destruct (read_constraint (eat_whitespace r) []) as [c r1].
+    destruct (vc_of_str c); [|reflexivity].
+    pose proof (read_version_string_fine (eat_whitespace r1) []) as H.
+    destruct (read_version_string (eat_whitespace r1) []) as [[vs r2]| | |]; try exact H.
+    destruct (vparse vs); [|reflexivity].
+    destruct (eat_whitespace r2) as [|[k' s'] r3]; [reflexivity|]. destruct k'; reflexivity.
+  Qed.
+
+  Lemma read_archs_fine ts : forall acc, fine (read_archs ts acc).
+  Proof.
+    induction ts as [ts IH] using list_len_ind.
+    intros acc. destruct ts as [|[k s] r]; [reflexivity|].
+    destruct k; try reflexivity; cbn [read_archs].
+    - apply IH. cbn. lia.
+    - destruct r as [|[k2 s2] r2]; [reflexivity|]. destruct k2; try reflexivity. apply IH. cbn. lia.
+    - apply IH. cbn. lia.
+  Qed.
+
+  Lemma read_architectures_fine ts : fine (read_architectures ts).
+  Proof.
+    unfold read_architectures. destruct ts as [|[k s] r]; [reflexivity|]. destruct k; try reflexivity.
+    pose proof (read_archs_fine r []) as H. destruct (read_archs r []) as [[a r']| | |]; exact H.
+  Qed.
+
+  Lemma read_profile_group_spec ts : forall acc,
+    fine (read_profile_group ts acc) /\
+    forall g r, read_profile_group ts acc = Ok (g, r) -> length r < length ts.
+  Proof.
+    induction ts as [ts IH] using list_len_ind.
+    intros acc. destruct ts as [|[k s] r]; [split; [reflexivity|discriminate]|].
+    destruct k; try (split; [reflexivity|discriminate]); cbn [read_profile_group].
+    - destruct (IH r ltac:(cbn; lia) (acc ++ [Enabled s])) as [F L]. split; [exact F|].
+      intros g r' E. specialize (L g r' E). cbn. lia.
+    - destruct r as [|[k2 s2] r2]; [split; [reflexivity|discriminate]|].
+      destruct k2; try (split; [reflexivity|discriminate]).
+      destruct (IH r2 ltac:(cbn; lia) (acc ++ [Disabled s2])) as [F L]. split; [exact F|].
+      intros g r' E. specialize (L g r' E). cbn. lia.
+    - split; [reflexivity|]. intros g r' E. inversion E; subst. cbn. lia.
+    - destruct (IH r ltac:(cbn; lia) acc) as [F L]. split; [exact F|].
+      intros g r' E. specialize (L g r' E). cbn. lia.
+  Qed.
+
+  Lemma eat_whitespace_len ts : length (eat_whitespace ts) <= length ts.
+  Proof.
+    induction ts as [|[k s] r IH]; [cbn; lia|]. destruct k; cbn [eat_whitespace length]; lia.
+  Qed.
+
+  (* the fuel handed to the profile loop suffices *)
+  Lemma read_profiles_fine fuel : forall ts acc, length ts <= fuel -> fine (read_profiles fuel ts acc).
+  Proof.
+    induction fuel as [|f IH]; intros ts acc Hl.
+    - destruct ts; [reflexivity|cbn in Hl; lia].
+    - destruct ts as [|[k s] r]; [reflexivity|]. destruct k; try reflexivity. cbn [read_profiles].
+      destruct (read_profile_group_spec r []) as [F L].
+      destruct (read_profile_group r []) as [[g r']| | |]; try exact F.
+      apply IH. specialize (L g r' eq_refl). pose proof (eat_whitespace_len r'). cbn in Hl. lia.
+  Qed.
+
+  Lemma relation_from_tokens_fine ts : fine (relation_from_tokens vparse ts).
+  Proof.
+    unfold relation_from_tokens.
+    apply fine_bind; [destruct ts as [|[k s] r]; [reflexivity|destruct k; reflexivity]|]. intros [name t1] _.
+    apply fine_bind.
+    { unfold read_archqual. destruct (eat_whitespace t1) as [|[k s] r]; [reflexivity|]. destruct k; try reflexivity.
+      destruct r as [|[k2 s2] r2]; [reflexivity|]. destruct k2; reflexivity. }
+    intros [aq t2] _. apply fine_bind; [apply read_version_fine|]. intros [ver t3] _.
+    apply fine_bind; [apply read_architectures_fine|]. intros [archs t4] _.
+    apply fine_bind; [apply read_profiles_fine; pose proof (eat_whitespace_len t4); lia|]. intros [profs t5] _.
+    destruct (eat_whitespace t5); reflexivity.
+  Qed.
+
+  Theorem relation_from_str_fine s : fine (relation_from_str vparse s).
+  Proof.
+    unfold relation_from_str. destruct (rlex_total_partition s) as (ts & E & _). rewrite E. cbn [bind].
+    apply relation_from_tokens_fine.
+  Qed.
+
+  Lemma read_alternatives_fine ps : fine (read_alternatives vparse ps).
+  Proof.
+    induction ps as [|p r IH]; [reflexivity|]. cbn [read_alternatives].
+    destruct (trim p) eqn:E; [reflexivity|]. rewrite <- E.
+    apply fine_bind; [apply relation_from_str_fine|]. intros x _.
+    apply fine_bind; [exact IH|]. intros xs _. reflexivity.
+  Qed.
+
+  Lemma read_entries_fine es : fine (read_entries vparse es).
+  Proof.
+    induction es as [|e r IH]; [reflexivity|]. cbn [read_entries].
+    destruct (trim e) eqn:E; [exact IH|]. rewrite <- E.
+    apply fine_bind; [apply read_alternatives_fine|]. intros x _.
+    apply fine_bind; [exact IH|]. intros xs _. reflexivity.
+  Qed.
+
+  Theorem relations_from_str_fine s : fine (relations_from_str vparse s).
+  Proof. unfold relations_from_str. destruct s; [reflexivity|apply read_entries_fine]. Qed.
+End Total.
+
+(* ================================================================== D. the concrete debversion model *)
+Lemma dec_go_digits fuel : forall n acc, forallb is_digit acc = true -> forallb is_digit (dec_digits_go fuel n acc) = true.
+Proof.
+  induction fuel as [|f IH]; intros n acc Ha; [exact Ha|]. cbn [dec_digits_go].
+  assert (Hd : forallb is_digit ((48 + n mod 10)%N :: acc) = true).
+  { cbn [forallb]. rewrite Ha, andb_true_r. pose proof (N.mod_lt n 10 ltac:(lia)) as Hm. generalize dependent (n mod 10)%N. intros d Hd. unfold is_digit. lia. }
+  destruct (n <? 10)%N; [exact Hd|apply IH; exact Hd].
+Qed.
+
+Lemma dec_go_nonempty f : forall n (acc : str), acc <> [] -> dec_digits_go f n acc <> [].
+Proof.
+  induction f as [|f IH]; intros n acc Ha; [exact Ha|]. cbn [dec_digits_go].
+  destruct (n <? 10)%N; [discriminate|apply IH; discriminate].
+Qed.
+Lemma dec_digits_nonempty n : dec_digits n <> [].
+Proof.
+  unfold dec_digits. cbn [dec_digits_go]. destruct (n <? 10)%N; [discriminate|apply dec_go_nonempty; discriminate].
+Qed.
+Lemma dec_digits_digits n : forallb is_digit (dec_digits n) = true.
+Proof. apply dec_go_digits. reflexivity. Qed.
+
+Definition dec_step (a c : N) : N := (a * 10 + (c - 48))%N.
+Lemma dec_go_value fuel : forall n acc, (n < 2 ^ N.of_nat fuel)%N ->
+  fold_left dec_step (dec_digits_go fuel n acc) 0%N = fold_left dec_step acc n.
+Proof.
+  induction fuel as [|f IH]; intros n acc Hn.
+  - cbn in Hn. assert (n = 0%N) by lia. subst n. reflexivity.
+  - cbn [dec_digits_go]. destruct (N.ltb_spec n 10) as [Hlt|Hge].
+    + cbn [fold_left]. unfold dec_step at 2. rewrite N.mod_small by exact Hlt. f_equal. lia.
+    + rewrite IH.
+      * cbn [fold_left]. f_equal. unfold dec_step. pose proof (N.div_mod n 10 ltac:(lia)) as Hdm.
+        clear Hn IH. generalize dependent (n / 10)%N. intros q. generalize (n mod 10)%N. intros m Hq. lia.
+      * rewrite Nat2N.inj_succ, N.pow_succ_r' in Hn.
+        apply N.div_lt_upper_bound; [lia|]. clear IH. generalize dependent (2 ^ N.of_nat f)%N. intros; lia.
+Qed.
+Lemma dec_digits_value n : dec_value (dec_digits n) = n.
+Proof.
+  unfold dec_value, dec_digits. change (fun a c : N => (a * 10 + (c - 48))%N) with dec_step.
+  rewrite dec_go_value; [reflexivity|].
+  rewrite Nat2N.inj_succ, N2Nat.id. destruct n as [|p]; [reflexivity|].
+  apply N.log2_lt_pow2; lia.
+Qed.
+
+Lemma revision_char_facts c : is_revision_char c = true ->
+  is_ident_char c = true /\ (c =? 45)%N = false /\ (c =? 58)%N = false.
+Proof. unfold is_revision_char, is_ident_char, is_ascii_alnum. lia. Qed.
+Lemma digit_facts c : is_digit c = true -> is_ident_char c = true /\ (c =? 58)%N = false.
+Proof. unfold is_digit, is_ident_char, is_ascii_alnum. lia. Qed.
+Lemma upstream_char_iff c : is_upstream_char c = is_ident_char c || (c =? 58)%N.
+Proof. unfold is_upstream_char, is_ident_char, is_ascii_alnum. lia. Qed.
+
+Lemma split_revision_some up r : up <> [] -> r <> [] -> forallb is_revision_char r = true ->
+  split_revision (up ++ 45%N :: r) = (up, Some r).
+Proof.
+  intros Hu Hr Hc. unfold split_revision.
+  rewrite rev_app_distr. cbn [rev]. rewrite <- app_assoc. cbn [app].
+  rewrite (span_exact (fun c => negb (c =? 45)%N) (rev r) (45%N :: rev up)).
+  - destruct (rev up) as [|x xs] eqn:Eu; [apply (f_equal (@rev _)) in Eu; rewrite rev_involutive in Eu; cbn in Eu; congruence|].
+    destruct (rev r) as [|y ys] eqn:Er; [apply (f_equal (@rev _)) in Er; rewrite rev_involutive in Er; cbn in Er; congruence|].
+    rewrite <- Er, <- Eu. rewrite forallb_rev, Hc, !rev_involutive. reflexivity.
+  - rewrite forallb_rev. eapply forallb_impl; [|exact Hc]. intros c H.
+    destruct (revision_char_facts c H) as (_ & -> & _). reflexivity.
+  - reflexivity.
+Qed.
+
+Lemma split_revision_none up : forallb (fun c => negb (c =? 45)%N) up = true -> split_revision up = (up, None).
+Proof.
+  intros H. unfold split_revision. rewrite <- (app_nil_r (rev up)).
+  rewrite (span_exact (fun c => negb (c =? 45)%N) (rev up) []); [reflexivity|rewrite forallb_rev; exact H|exact I].
+Qed.
+
+Lemma match_nonempty {A B} (l : list A) (x f : B) : l <> [] -> match l with [] => x | _ :: _ => f end = f.
+Proof. destruct l; [congruence|reflexivity]. Qed.
+
+Theorem dv_canonical_ok v : dv_canonical v = true -> version_ok dv_parse dv_print v.
+Proof.
+  destruct v as [ep up rv]. unfold dv_canonical. cbn [dv_epoch dv_upstream dv_revision].
+  intros H. apply andb_true_iff in H. destruct H as [H Hrv].
+  apply andb_true_iff in H. destruct H as [H Hup].
+  apply andb_true_iff in H. destruct H as [Hep Hne].
+  assert (Hune : up <> []) by (destruct up; [discriminate|discriminate]).
+  (* the revision part *)
+  set (rtext := match rv with Some r => 45%N :: r | None => [] end).
+  assert (Hrt : forallb is_ident_char rtext = true).
+  { unfold rtext. destruct rv as [r|]; [|reflexivity].
+    assert (Hr : forallb is_revision_char r = true) by (destruct r; [discriminate|exact Hrv]).
+    change (forallb is_ident_char (45%N :: r)) with (is_ident_char 45%N && forallb is_ident_char r).
+    change (is_ident_char 45%N) with true. cbn [andb].
+    eapply forallb_impl; [|exact Hr]. intros c Hc. apply revision_char_facts. exact Hc. }
+  assert (Hsplit : split_revision (up ++ rtext) = (up, rv)).
+  { unfold rtext. destruct rv as [r|].
+    - destruct r as [|c0 r0]; [discriminate|]. apply split_revision_some; [exact Hune|discriminate|exact Hrv].
+    - rewrite app_nil_r. apply split_revision_none. eapply forallb_impl; [|exact Hup].
+      intros c Hc. apply orb_true_iff in Hc.
+      destruct Hc as [Hc|Hc]; apply andb_true_iff in Hc; destruct Hc as [Hc1 Hc2].
+      + rewrite orb_false_r in Hc2. exact Hc2.
+      + apply N.eqb_eq in Hc1. subst c. reflexivity. }
+  assert (Hupchars : forallb (fun c => is_ident_char c || (c =? 58)%N) up = true).
+  { eapply forallb_impl; [|exact Hup]. intros c Hc. apply orb_true_iff in Hc. destruct Hc as [Hc|Hc];
+      apply andb_true_iff in Hc; destruct Hc as [Hc _]; rewrite Hc; [reflexivity|apply orb_true_r]. }
+  assert (Hbody : forallb (fun c => is_ident_char c || (c =? 58)%N) (up ++ rtext) = true).
+  { rewrite forallb_app, Hupchars. cbn [andb]. eapply forallb_impl; [|exact Hrt]. intros c ->. reflexivity. }
+  destruct ep as [e|].
+  - (* with an epoch *)
+    assert (Hprint : dv_print (mkDv (Some e) up rv) = dec_digits e ++ 58%N :: (up ++ rtext)).
+    { unfold dv_print. cbn [dv_epoch dv_upstream dv_revision]. fold rtext. rewrite <- !app_assoc. reflexivity. }
+    assert (Hdig : forallb (fun c => is_ident_char c || (c =? 58)%N) (dec_digits e) = true).
+    { eapply forallb_impl; [|apply dec_digits_digits]. intros c Hc. destruct (digit_facts c Hc) as [-> _]. reflexivity. }
+    split.
+    + unfold version_text_ok. rewrite Hprint, forallb_app, Hdig. cbn [andb forallb]. exact Hbody.
+    + unfold dv_parse. rewrite Hprint.
+      assert (Hall : forallb is_upstream_char (dec_digits e ++ 58%N :: up ++ rtext) = true).
+      { apply (forallb_impl (fun c => is_ident_char c || (c =? 58)%N)); [intros c Hc; rewrite upstream_char_iff; exact Hc|].
+        rewrite forallb_app, Hdig. cbn [andb forallb]. exact Hbody. }
+      rewrite Hall. cbn [negb].
+      rewrite (span_exact is_digit (dec_digits e) (58%N :: up ++ rtext) (dec_digits_digits e) eq_refl).
+      pose proof (dec_digits_nonempty e) as Hd. destruct (dec_digits e) as [|d0 ds] eqn:Ed; [congruence|].
+      rewrite N.eqb_refl.
+      rewrite match_nonempty by (destruct up; [congruence|discriminate]).
+      rewrite <- Ed. unfold parse_u32. rewrite dec_digits_value. rewrite Hep. rewrite Hsplit. reflexivity.
+  - (* without an epoch: no ':' anywhere *)
+    assert (Hprint : dv_print (mkDv None up rv) = up ++ rtext).
+    { unfold dv_print. cbn [dv_epoch dv_upstream dv_revision app]. fold rtext. reflexivity. }
+    assert (Hnocolon : forallb (fun c => negb (c =? 58)%N) (up ++ rtext) = true).
+    { rewrite forallb_app. apply andb_true_iff. split.
+      - eapply forallb_impl; [|exact Hup]. intros c Hc. apply orb_true_iff in Hc.
+        destruct Hc as [Hc|Hc]; apply andb_true_iff in Hc; destruct Hc as [Hc1 Hc2]; [|discriminate].
+        unfold is_ident_char, is_ascii_alnum in Hc1. lia.
+      - eapply forallb_impl; [|exact Hrt]. intros c Hc. unfold is_ident_char, is_ascii_alnum in Hc. lia. }
+    split.
+    + unfold version_text_ok. rewrite Hprint. exact Hbody.
+    + unfold dv_parse. rewrite Hprint.
+      assert (Hall : forallb is_upstream_char (up ++ rtext) = true).
+      { apply (forallb_impl (fun c => is_ident_char c || (c =? 58)%N)); [intros c Hc; rewrite upstream_char_iff; exact Hc|exact Hbody]. }
+      rewrite Hall. cbn [negb].
+      destruct (span is_digit (up ++ rtext)) as [ds rest] eqn:Es.
+      assert (Hplain : match up ++ rtext with [] => None | _ :: _ => let '(u, r) := split_revision (up ++ rtext) in Some (mkDv None u r) end
+                       = Some (mkDv None up rv)).
+      { rewrite match_nonempty by (destruct up; [congruence|discriminate]). rewrite Hsplit. reflexivity. }
+      destruct ds as [|d0 ds']; [exact Hplain|]. destruct rest as [|c body]; [exact Hplain|].
+      assert (Hc : (c =? 58)%N = false).
+      { pose proof (span_app _ _ _ _ Es) as Ea. rewrite <- Ea in Hnocolon. rewrite forallb_app in Hnocolon.
+        apply andb_true_iff in Hnocolon. destruct Hnocolon as [_ Hn]. cbn [forallb] in Hn.
+        apply andb_true_iff in Hn. destruct Hn as [Hn _]. apply negb_true_iff in Hn. exact Hn. }
+      rewrite Hc. exact Hplain.
+Qed.
